@@ -13,3 +13,4 @@ import PolyVerif.Props.C07
 import PolyVerif.Props.C15
 import PolyVerif.Props.C14
 import PolyVerif.Props.C18
+import PolyVerif.Props.C02
